@@ -23,7 +23,8 @@ REQUIRED = ["iff_checked:plurality", "iff_checked:approval", "iff_checked:superm
             "stratum:tie", "stratum:exact_threshold", "stratum:lacking_contest_style_off", "truth:winners_really_won",
             "truth:winners_did_not_win", "margin_tally_holds_write_in_votes",
             "style_mean_rechecked_after_scoring_cards_lacking_the_contest", "card_count_revised_after_assertions_were_made",
-            "margin_checked:contest_level_call_with_confirmed_assertions"]
+            "margin_checked:contest_level_call_with_confirmed_assertions", "assertions_built_by_make_all_assertions",
+            "candidate_names_contained_in_one_another"]
 ASSUMPTIONS = ["shares f in {1/2,1/4,1/8} (f and 1/(2f) both dyadic) are exact in binary; inexact shares (2/3, 0.6) are only evaluated at a "
                "distance from the threshold that rounding cannot bridge", "a mark for a name that is not on the contest's "
                "candidate list (write-in) appears only on ballots with no mark for a listed candidate, so that no "
@@ -33,6 +34,7 @@ TRUTHY = (True, 1, "x", 5, "marked", 2.5, float("nan"), -1)   # Python truthines
 FALSY = (False, 0, "", None, 0.0)
 CANDS = ["A", "B", "C", "D", "E", "F"]
 WRITE_INS = ["W/I", "Dan"]
+NESTED_NAMES = ["Anna", "Ann", "An", "Bob", "Bo", "1", "12", "21"]
 
 
 def plan(tier, seed):
@@ -43,6 +45,9 @@ def plan(tier, seed):
 def gen_profile(rng, kind, stratum):
     ncand = rng.randint(2, 6)
     cands = CANDS[:ncand]
+    if rng.random() < 0.3:
+        # names that contain one another ("Ann" in "Anna", "1" in "12"): identifiers are compared, never searched
+        cands = rng.sample(NESTED_NAMES, ncand)
     nb = rng.choice((3, 5, 8, 12, 20, 40, 100, 200)) if rng.random() < 0.8 else rng.randint(1, 6)
     if kind == "supermajority":
         k = 1
@@ -81,6 +86,7 @@ def gen_profile(rng, kind, stratum):
     prof = {"kind": kind, "cands": cands, "winners": winners, "share": f, "ballots": ballots}
     if rng.random() < 0.3:
         prof["cards_first"] = nb + rng.choice((1, 3, nb))
+    prof["via_make_all"] = rng.random() < 0.4
     if stratum == "tie" and kind != "supermajority":
         force_tie(rng, prof)
     if stratum == "true_winners" and kind != "supermajority":
@@ -180,6 +186,14 @@ def build(prof):
     # twice): the assertions used are those of the second call, and the caller's lists must come back unchanged
     winners_arg = list(prof["winners"])
     before = (list(winners_arg), list(losers))
+    if prof.get("via_make_all") and kind != "approval":   # (make_all_assertions declares approval not implemented)
+        # the route an audit takes: the contest dict handed to make_all_assertions (test/estim taken from the contest)
+        for _ in range(2):
+            Assertion.make_all_assertions({"con": con})
+        con._args_mutated = False
+        asns = con.assertions
+        con.cards = ncards
+        return con, cvrs, asns, Contest
     for _ in range(2):
         if kind == "supermajority":
             kw = {} if prof.get("omit_share_arg") else {"share_to_win": prof["share"]}   # the contest carries the share
@@ -212,6 +226,10 @@ def run_case(prof, rec):
     rec.count("constructor_called_twice_with_same_arguments")
     if prof.get("cards_first"):
         rec.count("card_count_revised_after_assertions_were_made")
+    if prof.get("via_make_all") and kind != "approval":
+        rec.count("assertions_built_by_make_all_assertions")
+    if any(a != b and a in b for a in cands for b in cands):
+        rec.count("candidate_names_contained_in_one_another")
     if con._args_mutated:
         rec.count("observed:constructor_mutated_its_arguments")  # an observation, not a violation: the property is about the values
     with np.errstate(all="ignore"):
